@@ -11,7 +11,9 @@ func init() {
 			ruleMultiIPAllOrNothing(c, "C05.R2")
 			c.Rule("C05.R3", "reload snapshot (store List) taken inside the cacheLock critical section", 1)
 			ruleListUnderLock(c, "C05.R3")
-			c.Rule("C05.R4", "persisted fields = restored fields (FloatingIPSpec, Attr)", 2)
+			c.Rule("C05.R11", "store clone and memory update carry the same values", 3)
+			ruleCloneMatchesAssign(c, "C05.R11")
+			c.Rule("C05.R4", "persisted fields = restored fields (FloatingIPSpec, Attr)", 3)
 			rulePersistRestoreAgree(c, "C05.R4")
 			c.Rule("C05.R5", "reload is all-or-nothing at the caller", 2)
 			ruleReloadAllOrNothing(c, "C05.R5")
